@@ -363,7 +363,13 @@ def virtual_memory():
     with open_binary(f"{get_procfs_path()}/meminfo") as f:
         for line in f:
             fields = line.split()
-            mems[fields[0]] = int(fields[1]) * 1024
+            try:
+                mems[fields[0]] = int(fields[1]) * 1024
+            except (IndexError, ValueError):
+                # Not a "Name: <number> [kB]" line, e.g. the header
+                # "total: used: free: shared: buffers: cached:" which
+                # Linux 2.4 prints first. Skip it.
+                continue
 
     # /proc doc states that the available fields in /proc/meminfo vary
     # by architecture and compile options, but these 3 values are also
@@ -489,7 +495,13 @@ def swap_memory():
     with open_binary(f"{get_procfs_path()}/meminfo") as f:
         for line in f:
             fields = line.split()
-            mems[fields[0]] = int(fields[1]) * 1024
+            try:
+                mems[fields[0]] = int(fields[1]) * 1024
+            except (IndexError, ValueError):
+                # Not a "Name: <number> [kB]" line, e.g. the header
+                # "total: used: free: shared: buffers: cached:" which
+                # Linux 2.4 prints first. Skip it.
+                continue
     # We prefer /proc/meminfo over sysinfo() syscall so that
     # psutil.PROCFS_PATH can be used in order to allow retrieval
     # for linux containers, see:
